@@ -136,6 +136,29 @@ def run(prog, tier) -> Result:
     res.trusted = ["dict/list semantics", "value-equivalence of the members of one registry bucket (C07 equality)"]
     cr = CaseRunner(prog, res, max_depth=8 if tier == "quick" else 12)
     U = lambda n: prog.method("Unit", n)
+    # the operation cache: the process-global map(s) the two operators (through their private helpers) store into;
+    # other memos anywhere in the package are judged by the repeated-call variants of the cases that reach them
+    from ..anchors import _with_private_helpers
+    writes = inventory(prog)
+    op_funcs0 = {f.qualname for name in ("__mul__", "__truediv__")
+                 for f in _with_private_helpers(prog, U(name), prog.cls("Unit"))}
+    OPCACHE = {w.state for w in writes if w.func in op_funcs0 and w.kind == "item-store"}
+    # ... of these, the one(s) filled by a product / quotient of units of two different types (a helper's memo of
+    # something else - the factor between units of one type, a rank - is a memo of its own)
+    from ..engine_a import run_case
+    holds = set()
+    for name in ("__mul__", "__truediv__"):
+        for o in run_case(prog, U(name), two_units_other_type("ref"), max_depth=8 if tier == "quick" else 12):
+            if o.kind == "return":
+                holds |= {e[1].name for e in o.state.effects if e[0] == "setitem" and isinstance(e[1], GlobalMapV)}
+    if holds & OPCACHE:
+        OPCACHE &= holds
+
+    def cache_effects(st):
+        reads = [e for e in st.effects if e[0] == "mapread" and isinstance(e[2], TupleV) and e[1].name in OPCACHE]
+        stores = [e for e in st.effects if e[0] == "setitem" and isinstance(e[1], GlobalMapV) and isinstance(e[2], TupleV)
+                  and e[1].name in OPCACHE]
+        return reads, stores
 
     for name in ("__mul__", "__truediv__"):
         for label, setup in (("other type", two_units_other_type("ref")), ("same type [ref]", two_units_same_type("ref")),
@@ -177,7 +200,7 @@ def run(prog, tier) -> Result:
                 if stores:
                     return ("cache rewritten on a hit", "")
                 return None
-            cr.run("R17.1", U(name), f"Unit{name} Unit {label} (hit)", setup, judge_hit, cache_hits=True,
+            cr.run("R17.1", U(name), f"Unit{name} Unit {label} (hit)", setup, judge_hit, cache_hits=OPCACHE or True,
                    site=f"Unit.{name}")
     # the cache parameter is the module-level cache (default-argument alias)
     for name in ("__mul__", "__truediv__"):
@@ -197,6 +220,8 @@ def run(prog, tier) -> Result:
     uci = prog.cls("Unit")
     op_funcs = {f.qualname for name in ("__mul__", "__truediv__") for f in _with_private_helpers(prog, U(name), uci)}
     cache_names = {w.state for w in writes if w.func in op_funcs and w.kind == "item-store"}
+    if cache_names & OPCACHE:
+        cache_names &= OPCACHE
     if not cache_names:
         raise AnalysisError("anchor vanished: operation cache stores in Unit.__mul__/__truediv__")
     other_memo = {}
